@@ -1,7 +1,7 @@
 From Coq Require Import List ZArith Lia Bool.
 Import ListNotations.
 Require Import Base Tree Driver Inl3e Render Props.
-Require Uncond C02Full ComposeC03 C05Full C13All Total InlineFuelAll BlankPrefix EolFinalDefs EolFinalGenMain EolCRLFDefs EolCRLFSim EolCRLFGen ChkDocAll ChkDocAll2.
+Require QuoteSimDefs QS2Spec2 EolCRDefs EolCR EolCRFull EolCRRenderDefs EolCRRender Uncond C02Full ComposeC03 C05Full C13All Total InlineFuelAll BlankPrefix EolFinalDefs EolFinalGenMain EolCRLFDefs EolCRLFSim EolCRLFGen ChkDocAll ChkDocAll2.
 Open Scope Z_scope.
 
 (* The properties whose formal statement (Props.v, or the statement file named) is a theorem about the model for everything the
@@ -38,6 +38,17 @@ Proof. exact EolCRLFSim.parseBlocks_crlf_nobracket. Qed.
 Theorem C14_crlf_limit : EolCRLFGen.parseBlocks_crlf_limit_statement.
 Proof. exact EolCRLFGen.parseBlocks_crlf_limit. Qed.
 
+(* C09, block-quote clause at the block layer, every tab-free document *)
+Theorem C09_quote_blocks : QuoteSimDefs.parseBlocks_quote_statement.
+Proof. exact QS2Spec2.parseBlocks_quote. Qed.
+
+(* C14, CR clause through the whole pipeline *)
+Theorem C14_cr_parse : forall s, ~ In 13 s ->
+  parseFull (EolCRDefs.cr s) = (map (EolCR.mapSrc EolCRDefs.cr) (fst (parseFull s)), snd (parseFull s)).
+Proof. exact EolCRFull.parseFull_cr. Qed.
+Theorem C14_cr_render : forall c s, ~ In 13 s -> EolCRRenderDefs.RE (renderDoc c s) (renderDoc c (EolCRDefs.cr s)).
+Proof. exact EolCRRender.renderDoc_cr. Qed.
+
 (* C17: the side condition of the whole-document filter theorem holds of every parser output *)
 Theorem C17_chkDoc : ChkDocAll.chkDoc_all_statement.
 Proof. exact ChkDocAll2.chkDoc_all. Qed.
@@ -53,3 +64,6 @@ Print Assumptions C14_final_newline.
 Print Assumptions C14_crlf_nobracket.
 Print Assumptions C14_crlf_limit.
 Print Assumptions C17_chkDoc.
+Print Assumptions C09_quote_blocks.
+Print Assumptions C14_cr_parse.
+Print Assumptions C14_cr_render.
